@@ -329,13 +329,12 @@ def genMain (out : IO.FS.Stream) (v : Variant) (tier : String) (seed : Nat) : IO
   for acts in fixedScheds v do
     out.putStrLn (schedLine v acts)
   if tier == "thorough" then
-    -- transition cover of the state graph of every configuration: complete for the two one-shard
-    -- configurations, every fourth schedule (offset by the seed) for the two larger ones
+    -- transition cover of the state graph of every configuration
     let mut ci := 0
     for (name, calls) in configs do
       let ex := exploreConfig v calls
       let sc := cover v (dirUniverse calls) ex
-      let stride := if ci == 0 || ci == 3 then 1 else 4
+      let stride := 1
       let mut n := 0
       let mut k := 0
       for acts in sc do
